@@ -197,7 +197,7 @@ def run_exhaustive(ctx, sub, cases, modname, funcname, nproc=16):
     mpctx = multiprocessing.get_context('fork')
     tot = {'levels': 0, 'histories': 0, 'sim_calls': 0, 'max_err': 0.0}
     with mpctx.Pool(nproc) as pool:
-        for case, fl, herr, info in pool.imap(_tree_worker, [(modname, funcname, c) for c in cases], chunksize=8):
+        for case, fl, herr, info in pool.imap(_tree_worker, [(modname, funcname, c) for c in cases], chunksize=(8 if len(cases) >= 256 else 1)):
             if herr:
                 ctx.harness_error(sub, herr + ' on %r' % (case,))
                 break
